@@ -78,7 +78,14 @@ ReadVerdict(ev) ==
     LET rt == ReadText(ev.text) IN
     IF ~rt.ok THEN (IF ev.kind = "ok" THEN "accepted-bad-text" ELSE "ok")
     ELSE LET r == ReadBec2(rt.bin, ev.ecckeys, ev.decs, ev.check) IN
-         IF ~r.ok THEN (IF ev.kind = "ok" THEN "accepted-malformed:" \o r.err ELSE "ok")
+         \* auth_blocks (C04): the block list the same decryptors returned for the AUTHENTIC file.  The header is not
+         \* authenticated, so a damaged block may legitimately turn into an opaque one (the specification's reader then
+         \* accepts the file as well); but a file the specification REFUSES, accepted with another block list than the
+         \* authentic one, is damaged content passed off as valid
+         IF ~r.ok THEN (IF ev.kind = "ok"
+                        THEN (IF "auth_blocks" \in DOMAIN ev /\ ev.blocks # ev.auth_blocks
+                              THEN "silent-accept-blocks:" \o r.err ELSE "accepted-malformed:" \o r.err)
+                        ELSE "ok")
          ELSE IF ev.kind # "ok" THEN "rejected-wellformed"
          \* (an EMPTY key - crafted empty payload, unchecked mode - is replaced by a fresh random key by the Bec2File constructor)
          ELSE IF ev.key # r.key /\ ~(r.key = <<>> /\ Len(ev.key) = 16) THEN "session-key-differs"
